@@ -57,11 +57,24 @@ def gen_cases(rng, tier):
         for a in range(nli):
             if rng.random() < p_transit:
                 cur[a] = -1
+        # hand-over class: one atom ends the run in transit (an unfinished departure) and the atom listed after it starts the run in
+        # transit and enters a site later -- state carried from one atom's event list into the next one's shows only here
+        hand = rng.randrange(nli - 1) if transit and rng.random() < 0.4 else None
+        if hand is not None:
+            if cur[hand] == -1:
+                cur[hand] = rng.choice([k for k in range(ns) if k not in cur])
+            cur[hand + 1] = -1
         li = []
         for t in range(T):
             fr = []
             for a in range(nli):
-                if rng.random() < 0.25:
+                if hand is not None and ((a == hand and t >= T - 2) or (a == hand + 1 and t < 3)):
+                    cur[a] = -1
+                elif hand is not None and a == hand + 1 and t == 3:
+                    cur[a] = rng.choice([k for k in range(ns) if k not in cur])
+                elif hand is not None and a == hand and t == T - 3 and cur[a] == -1:
+                    cur[a] = rng.choice([k for k in range(ns) if k not in cur])
+                elif rng.random() < 0.25:
                     free = [k for k in range(ns) if k not in cur]
                     if rng.random() < p_transit:
                         cur[a] = -1
